@@ -3,6 +3,7 @@ package extract
 import (
 	"archive/zip"
 	"bytes"
+	"encoding/json"
 	"fmt"
 	"os"
 	"path/filepath"
@@ -142,7 +143,38 @@ func readFixture(rel string) ([]byte, error) {
 }
 
 // Bytes materialises the content; corrupt=false ignores every Op (also the nested ones).
+// Large synthetic containers are memoised (a pure function of the Src value).
 func (s *Src) Bytes(corrupt bool) ([]byte, error) {
+	big := false
+	for i := range s.Zip {
+		big = big || s.Zip[i].Src.Pad >= 1<<19
+	}
+	if !big {
+		return s.bytes(corrupt)
+	}
+	kb, _ := json.Marshal(s)
+	key := fmt.Sprintf("%v|%s", corrupt, kb)
+	fixMu.Lock()
+	b, ok := srcCache[key]
+	fixMu.Unlock()
+	if ok {
+		return b, nil
+	}
+	b, err := s.bytes(corrupt)
+	if err == nil {
+		fixMu.Lock()
+		if len(srcCache) > 6 {
+			srcCache = map[string][]byte{}
+		}
+		srcCache[key] = b
+		fixMu.Unlock()
+	}
+	return b, err
+}
+
+var srcCache = map[string][]byte{}
+
+func (s *Src) bytes(corrupt bool) ([]byte, error) {
 	var b []byte
 	if len(s.Zip) > 0 {
 		var buf bytes.Buffer
@@ -176,9 +208,9 @@ func (s *Src) Bytes(corrupt bool) ([]byte, error) {
 			b = append(b, fb...)
 		}
 		if s.Pad > 0 {
-			line := "padpkg==1.0 --hash=sha256:"
+			line := []byte("padpkg==1.0 --hash=sha256:")
 			for len(line) < s.Pad {
-				line += "0123456789abcdef0123456789abcdef0123456789abcdef0123456789abcdef"
+				line = append(line, "0123456789abcdef0123456789abcdef0123456789abcdef0123456789abcdef"...)
 			}
 			b = append(b, line[:s.Pad]...)
 			b = append(b, '\n')
